@@ -258,7 +258,50 @@ def make_dataset(desc, df=None, forms=None, stubs=None):
     else:
         used["args"] = "keyword"
         ds = Dataset(df, col_to_stype, target_col=desc["target"], split_col=split_col, **kw)
+    # what was passed and what the dataset made of it: for the Dataset.__init__ model (Model/DatasetInit.v)
+    used["_args"] = {"columns": [str(c) for c in df.columns], "stypes": [(n, s.value) for n, s in col_to_stype.items()],
+                     "target": desc["target"], "split": split_col, "split_vals": [int(v) for v in df[split_col]] if split_col else [],
+                     "sep": sep, "fmt": fmt,
+                     "text": _cfg_shape(kw["col_to_text_embedder_cfg"]), "image": _cfg_shape(kw["col_to_image_embedder_cfg"]),
+                     "tok": _cfg_shape(kw["col_to_text_tokenizer_cfg"]),
+                     "canon_sep": dict(ds.col_to_sep), "canon_fmt": dict(ds.col_to_time_format)}
     return ds, stubs, used
+
+
+def _cfg_shape(c):
+    if c is None:
+        return None
+    return sorted(c) if isinstance(c, dict) else "single"
+
+
+def _pat(v, f):
+    return "PNone" if v is None else f"(PVal {f(v)})"
+
+
+def _parg(arg, f):
+    """a pattern argument in the user's form -> pattern_arg literal"""
+    if isinstance(arg, dict):
+        return "(ADict " + plist(list(arg.items()), lambda kv: f"({pstr(kv[0])}, {_pat(kv[1], f)})") + ")"
+    return f"(ASingle {_pat(arg, f)})"
+
+
+def ds_args_literal(a):
+    cfg = {}
+    for k in ("text", "image", "tok"):
+        v = a[k]
+        cfg[k] = "(ASingle PNone)" if v is None else ("(ASingle (PVal tt))" if v == "single" else
+                                                     "(ADict " + plist(v, lambda n: f"({pstr(n)}, PVal tt)") + ")")
+    return ("(MkArgs " + plist(a["columns"], pstr) + " " +
+            plist(a["stypes"], lambda p: f"({pstr(p[0])}, {stype_ctor(p[1])})") + " " +
+            popt(a["target"], pstr) + " " + popt(a["split"], pstr) + " " + plist(a["split_vals"], zs) + " " +
+            _parg(a["sep"], pstr) + " " + _parg(a["fmt"], pstr) + f" {cfg['text']} {cfg['image']} {cfg['tok']})")
+
+
+def check_config_term(a):
+    """Model/DatasetInit.v on the arguments this dataset was built with vs the canonical dictionaries it holds"""
+    def obs(d):
+        return plist(list(d.items()), lambda kv: f"({pstr(kv[0])}, {popt(kv[1], pstr)})")
+    return f"check_config {ds_args_literal(a)} {obs(a['canon_sep'])} {obs(a['canon_fmt'])}"
 
 
 def device_arg(form):
@@ -270,7 +313,8 @@ def count_forms(d, used):
     """stats helper: histogram of the signature forms actually used"""
     f = d.setdefault("forms", {})
     for k, v in (used or {}).items():
-        f[f"{k}={v}"] = f.get(f"{k}={v}", 0) + 1
+        if not k.startswith("_"):
+            f[f"{k}={v}"] = f.get(f"{k}={v}", 0) + 1
 
 
 
